@@ -109,7 +109,7 @@ def norm(v, depth=0):
     if isinstance(v, (list, tuple)):
         return tuple([x if type(x) is float and x == x else norm(x, depth + 1) for x in v])
     if isinstance(v, dict):
-        return ('dict',) + tuple(sorted(((k if type(k) is str else repr(k), nf(x) if depth < 6 else norm(x, depth + 1))
+        return ('dict',) + tuple(sorted(((k if type(k) is str else repr(k), x if (type(x) is float and x == x) else norm(x, depth + 1))
                                          for k, x in v.items()), key=_first))
     if hasattr(v, '__dict__'):
         return (type(v).__name__, norm({k: x for k, x in vars(v).items() if k != 'element'}, depth + 1))
@@ -882,7 +882,8 @@ class Env(object):
                            % (where, table_label, len(diffs), g, diffs[0][0], diffs[0][1],
                               short(diffs[0][2], 60), short(diffs[0][3], 60)),
                            symptom='digest-differs', entries=diffs,
-                           all_entries_dataless=(g == 'neutron' and all(e in dl for e, _, _, _ in diffs)))
+                           all_entries_dataless=(g == 'neutron' and all(e in dl for e, _, _, _ in diffs)),
+                           all_entries_lost_own_record=(g == 'neutron' and _all_lost_own_record(diffs)))
         return d
 
     # -- events ----------------------------------------------------------
@@ -1176,6 +1177,12 @@ class Env(object):
                 'heap_stats': self.heap_stats, 'pid': os.getpid()}
 
 
+def _all_lost_own_record(diffs):
+    """True when every entry that differs also lost its own neutron record (own_record True -> False)."""
+    lost = set(e for e, f, a, b in diffs if f == 'own_record' and a is False and b is True)
+    return bool(diffs) and all(e in lost for e, _, _, _ in diffs)
+
+
 def _group_of_attrs(attrs):
     for g, names in SERVED.items():
         if any(a in names for a in attrs):
@@ -1316,6 +1323,8 @@ def fresh_main():
         else:
             with open(job['canon'], 'rb') as f:
                 canon = pickle.load(f)
+            xs = job.get('xray_elements')
+            CONFIG['xray_elements'] = set(xs) if xs else None
             r = play(job['history'], canon, heap=job.get('heap', True))
             r['where'] = where
             res = ('ok', r)
